@@ -300,3 +300,36 @@ Theorem c09_source_pad_variable_rows : forall (T F : nat) (value : Syntax.val) (
          nth n out [] = lpart md fill (nth n pl 0) s ++ s ++ rpart md fill (nth n pr 0) s ++ repeat fill (Tp - new).
 Proof. exact Tie.source_pad_variable_rows. Qed.
 Print Assumptions c09_source_pad_variable_rows.
+
+(* the executable form the harness evaluates on the pad_variable cases of every run: reading back what the interpreted
+   source returns gives the model's result (rows of cells / the kind of error) ... *)
+Theorem c09_source_pad_variable_refines_model : forall (T F : nat) (value : Syntax.val) (md : mode)
+    (x : list (list (list Syntax.val))) (lens pl pr : list nat) (d : list Syntax.val),
+  0 < F -> Tie.wf_x T F x -> (forall n, n < length x -> nth n lens 0 <= T) -> length pr = length pl ->
+  SrcRun.src_pad_variable T F value md x lens pl pr = Some (pad_variable T d (repeat value F) md x lens pl pr).
+Proof. exact Tie.src_pad_variable_tie. Qed.
+Print Assumptions c09_source_pad_variable_refines_model.
+
+(* ... so the check on the interpreted source is the model-side comparison, with the model taken on the payload values
+   (integer z = the MiniPy value VInt z); that this equals Model.check_pad on the Z carrier is NOT proved (it would need
+   the model's naturality in the cell type) *)
+Theorem c09_source_pad_check_is_check : forall (T F : nat) (v : Z) (md : mode) (x : list (list zcell))
+    (lens pl pr : list nat) (code : nat) (impl : option (list (list zcell))),
+  0 < F -> Tie.wf_x T F (SrcRun.zcells x) -> (forall n, n < length x -> nth n lens 0 <= T) -> length pr = length pl ->
+  SrcRun.src_pad_variable_check T F v md x lens pl pr code impl
+  = res_eqb SrcRun.vtensor_eqb (pad_variable T [] (repeat (Syntax.VInt v) F) md (SrcRun.zcells x) lens pl pr) code
+      (option_map SrcRun.zcells impl).
+Proof. exact Tie.src_pad_variable_check_is_check. Qed.
+Print Assumptions c09_source_pad_check_is_check.
+
+(* non-vacuity: the interpreted source on the batch of c09_pad_nonvacuous (F = 1), one replicate and one failing call *)
+Example c09_source_pad_nonvacuous :
+  Tie.wf_x 3 1 (SrcRun.zcells [[[1]; [2]; [3]]; [[4]; [5]; [6]]]%Z) /\
+  SrcRun.src_pad_variable_check 3 1 9 Reflect [[[1]; [2]; [3]]; [[4]; [5]; [6]]]%Z [3; 2] [2; 0] [1; 1] 0
+    (Some [[[3]; [2]; [1]; [2]; [3]; [2]]; [[4]; [5]; [4]; [9]; [9]; [9]]]%Z) = true /\
+  SrcRun.src_pad_variable_check 3 1 9 Replicate [[[1]; [2]; [3]]; [[4]; [5]; [6]]]%Z [3; 2] [2; 0] [1; 4] 0
+    (Some [[[1]; [1]; [1]; [2]; [3]; [3]]; [[4]; [5]; [5]; [5]; [5]; [5]]]%Z) = true /\
+  SrcRun.src_pad_variable_check 3 1 9 Reflect [[[1]; [2]; [3]]; [[4]; [5]; [6]]]%Z [3; 2] [2; 0] [1; 4] 3 None = true.
+Proof.
+  split; [|vm_compute; auto]. repeat constructor.
+Qed.
